@@ -7,6 +7,7 @@ func init() {
 	vHarness["C08_family"] = VerifHarness_C08_family
 	vHarness["C08_sequence"] = VerifHarness_C08_sequence
 	vHarness["C08_sequence_probe"] = VerifHarness_C08_sequence_probe
+	vHarness["C08_label_probe"] = VerifHarness_C08_label_probe
 }
 
 // vCompileTokens is CompileWarrior from the token stream on (the real scan /
@@ -237,5 +238,18 @@ func vC08sequence() {
 	for b := 0; b < len(w.Code) && b < n; b++ {
 		vAssert("sequence-code", w.Code[b].A == 1 && w.Code[b].B == Address(b))
 	}
+	vReach("end")
+}
+
+// probe for the known finding "for-label-before-counterless-inner-for"
+func VerifHarness_C08_label_probe() {
+	texts := []string{
+		"x i for 2\nfor 2\ndat 0\nrof\nrof\njmp x\n",
+		"x i for 0\ndat 0\nrof\nfor 2\ndat 1\nrof\njmp x\n",
+	}
+	text := texts[vPick("which", 0, 1)]
+	vUnwind(600)
+	w, err := CompileWarrior(vTextReader(text), ConfigNOP94)
+	vAssert("labelled-block-assembles", err == nil && len(w.Code) >= 3)
 	vReach("end")
 }
